@@ -49,4 +49,10 @@ META = {
   "text": "Theorem (no axioms): for structs of integer interval-set columns and every predicate built from comparisons (> >= < <= =) between columns, constants and integer expressions, IN lists, AND, OR, boolean constants and unsupported sub-terms, every row of the input type on which the predicate is true belongs to the narrowed type; narrowing always yields well-formed column types. The model reproduces DataType::filter (both AND orders intersected, OR as union, greatest/least images intersected with the operand type, fall-backs to the unnarrowed type) and is compared with it column by column on generated predicates. Nullable, float, text and boolean columns are covered by the row oracle only.",
   "note": "Trusted: Coq kernel, vm_compute, harness. Modelled not verified: DataType::filter and replace. Optional stripping, non-integer columns and join ON narrowing (filter_by_join_operator) are exercised by the oracle, not proved.",
  },
+ "C08": {
+  "technique": "Coq proof of the identifier / literal quoting round trip (model of sqlparser's escape and tokenizer) + SQLite differential execution of original vs rendered SQL",
+  "design_ref": "DESIGN.md section 4, C08",
+  "text": "Partial. Theorems: writing then reading back an identifier or string literal returns the value whenever it has no delimiter right after a backslash or another delimiter, for every delimiter; the unrestricted statement is refuted with a witness (known finding: sqlparser's heuristic escape). The model is compared with sqlparser's Display and Tokenizer on random strings. The end-to-end statement (parse -> relation -> render preserves the multiset of rows, order, names) cannot be carried by a model of this size: it is decided by executing original and rendered SQL on SQLite for generated queries and databases.",
+  "note": "Trusted: Coq kernel; SQLite as reference engine; harness shims. NOT proved: sql/*.rs, expr/split.rs, relation/sql.rs (explored). Known findings: ORDER BY/LIMIT after set operations dropped, GROUP BY ordinal, ORDER BY on renamed input columns, quoting heuristic.",
+ },
 }
